@@ -1,73 +1,32 @@
 import Proofs.Tie.Basic
+import Proofs.EncodeFields
 namespace Mq.Tie
 open Mq
 
-/-! ## T2 — encoder property order = the `fillProp` sequence of each `properties` method -/
+/-! ## T2 — encoder property order = the `fillProp` sequence of each `properties` method (source facts) -/
 
-def encFields (fs : List (UInt8 × WVal)) : Bytes := fs.flatMap fun f => encPropOpt f.1 f.2
-def kinds (fs : List (UInt8 × WVal)) : List (UInt8 × WKind) := fs.map fun f => (f.1, f.2.kind)
-def up : List (UInt8 × WKind) := [(38, .pair)]
+theorem T2_connect (p : Connect) : kinds (connectFields p) ++ up = order "Connect.properties" := by
+  simp only [kinds, connectFields, List.map_cons, List.map_nil, WVal.kind]; decide
 
-def connectFields (p : Connect) : List (UInt8 × WVal) :=
-  [(0x21, .u16 p.receiveMax), (0x11, .u32 p.sessionExpiryInterval), (0x27, .u32 p.maxPacketSize),
-   (0x22, .u16 p.topicAliasMax), (0x19, .bool p.requestResponseInfo), (0x17, .bool p.requestProblemInfo),
-   (0x15, .bin p.authMethod), (0x16, .bin p.authData)]
-theorem T2_connect (p : Connect) : p.props = encFields (connectFields p) ++ encUserProps p.userProps
-    ∧ kinds (connectFields p) ++ up = order "Connect.properties" :=
-  ⟨by simp [Connect.props, encFields, connectFields],
-   by simp only [kinds, connectFields, List.map_cons, List.map_nil, WVal.kind]; decide⟩
+theorem T2_will (p : Connect) (w : Publish) : kinds (willFields p w) ++ up = order "Connect.payload(will)" := by
+  simp only [kinds, willFields, List.map_cons, List.map_nil, WVal.kind]; decide
 
-def willFields (p : Connect) (w : Publish) : List (UInt8 × WVal) :=
-  [(0x18, .u32 p.willDelayInterval), (0x01, .bool w.payloadFormat), (0x02, .u32 w.messageExpiryInterval),
-   (0x03, .bin w.contentType), (0x08, .bin w.responseTopic), (0x09, .bin w.correlationData)]
-theorem T2_will (p : Connect) (w : Publish) : p.willProps w = encFields (willFields p w) ++ encUserProps w.userProps
-    ∧ kinds (willFields p w) ++ up = order "Connect.payload(will)" :=
-  ⟨by simp [Connect.willProps, encFields, willFields],
-   by simp only [kinds, willFields, List.map_cons, List.map_nil, WVal.kind]; decide⟩
+theorem T2_connack (p : ConnAck) : kinds (connackFields p) ++ up = order "ConnAck.properties" := by
+  simp only [kinds, connackFields, List.map_cons, List.map_nil, WVal.kind]; decide
 
-def connackFields (p : ConnAck) : List (UInt8 × WVal) :=
-  [(0x21, .u16 p.receiveMax), (0x11, .u32 p.sessionExpiryInterval), (0x24, .u8 p.maxQoS),
-   (0x25, .bool p.retainAvailable), (0x27, .u32 p.maxPacketSize), (0x12, .bin p.assignedClientID),
-   (0x22, .u16 p.topicAliasMax), (0x1f, .bin p.reasonString), (0x28, .bool p.wildcardSubAvailable),
-   (0x29, .bool p.subIdentifiersAvailable), (0x2a, .bool p.sharedSubAvailable), (0x13, .u16 p.serverKeepAlive),
-   (0x1a, .bin p.responseInformation), (0x1c, .bin p.serverReference), (0x15, .bin p.authMethod),
-   (0x16, .bin p.authData)]
-theorem T2_connack (p : ConnAck) : p.props = encFields (connackFields p) ++ encUserProps p.userProps
-    ∧ kinds (connackFields p) ++ up = order "ConnAck.properties" :=
-  ⟨by simp [ConnAck.props, encFields, connackFields],
-   by simp only [kinds, connackFields, List.map_cons, List.map_nil, WVal.kind]; decide⟩
+theorem T2_publish (p : Publish) : kinds (publishFields p) ++ up ++ [(11, .vb)] = order "Publish.properties" := by
+  simp only [kinds, publishFields, List.map_cons, List.map_nil, WVal.kind]; decide
 
-def publishFields (p : Publish) : List (UInt8 × WVal) :=
-  [(0x01, .bool p.payloadFormat), (0x02, .u32 p.messageExpiryInterval), (0x23, .u16 p.topicAlias),
-   (0x08, .bin p.responseTopic), (0x09, .bin p.correlationData), (0x03, .bin p.contentType)]
-theorem T2_publish (p : Publish) :
-    p.props = encFields (publishFields p) ++ encUserProps p.userProps
-      ++ p.subscriptionIDs.flatMap (fun v => encPropOpt 0x0b (.vb v.toNat))
-    ∧ kinds (publishFields p) ++ up ++ [(11, .vb)] = order "Publish.properties" :=
-  ⟨by simp [Publish.props, encFields, publishFields],
-   by simp only [kinds, publishFields, List.map_cons, List.map_nil, WVal.kind]; decide⟩
+theorem T2_acks : [(31, WKind.bin)] ++ up = order "PubAck.properties" ∧ order "PubRec.properties" = order "PubAck.properties"
+    ∧ order "PubRel.properties" = order "PubAck.properties" ∧ order "PubComp.properties" = order "PubAck.properties" := by decide
 
-theorem T2_acks (p : Ack) : p.props = encFields [(0x1f, .bin p.reason)] ++ encUserProps p.userProps
-    ∧ [(31, WKind.bin)] ++ up = order "PubAck.properties" ∧ order "PubRec.properties" = order "PubAck.properties"
-    ∧ order "PubRel.properties" = order "PubAck.properties" ∧ order "PubComp.properties" = order "PubAck.properties" :=
-  ⟨by simp [Ack.props, encFields], by decide⟩
+theorem T2_disconnect : [(17, WKind.u32), (31, .bin), (28, .bin)] ++ up = order "Disconnect.properties" := by decide
 
-theorem T2_disconnect (p : Disconnect) :
-    p.props = encFields [(0x11, .u32 p.sessionExpiryInterval), (0x1f, .bin p.reasonString), (0x1c, .bin p.serverReference)]
-      ++ encUserProps p.userProps
-    ∧ [(17, WKind.u32), (31, .bin), (28, .bin)] ++ up = order "Disconnect.properties" :=
-  ⟨by simp [Disconnect.props, encFields], by decide⟩
-
-theorem T2_auth (p : Auth) :
-    p.props = encFields [(0x15, .bin p.authMethod), (0x16, .bin p.authData), (0x1f, .bin p.reasonString)]
-      ++ encUserProps p.userProps
-    ∧ [(21, WKind.bin), (22, .bin), (31, .bin)] ++ up = order "Auth.properties" :=
-  ⟨by simp [Auth.props, encFields], by decide⟩
+theorem T2_auth : [(21, WKind.bin), (22, .bin), (31, .bin)] ++ up = order "Auth.properties" := by decide
 
 /-- SUBSCRIBE, SUBACK, UNSUBACK write their single property by ranging over the one-entry map
 (`T1_subscribe`, `T1_subacks`, `T5_map_ranges`), then the user properties -/
 theorem T2_ranged : order "Subscribe.properties" = [(0, .u8), (38, .pair)]
     ∧ order "SubAck.properties" = [(0, .u8), (38, .pair)] ∧ order "UnsubAck.properties" = [(0, .u8), (38, .pair)] := by decide
-
 
 end Mq.Tie
